@@ -3,8 +3,9 @@ import re
 import vlib, gen_facts
 from props import codec_common as cc
 
-THEOREMS = ['C11_clone_same_bytes', 'C11_copy_legal_all', 'C11_move_legal_same']
+THEOREMS = ['C11_clone_same_bytes', 'C11_copy_legal_all', 'C11_move_legal_same', 'C11_placeAll_canonical', 'C11_placeAll_canonical_deep', 'C11_copy_step_is_add_field', 'C11_clone_unknown_empty', 'C11_clone_visible_same', 'C11_presetOk_header', 'C11_presetOk_trailer', 'C11_clone_drops_unknown', 'C11_finding_clone_reorders_decoded', 'C11_finding_decoded_is_arrival_order', 'C11_finding_clone_reorders_equal_pos']
 RES = re.compile(r'^clone=(\S+) copy=(\S+) orig=(\S+) moved=(\S+)$')
+DRES = re.compile(r'^dec=(H\[.*\] B\[.*\] T\[.*\]) re=(\S+) clone=(\S+)$')
 
 
 def gen(rng, sc, n):
@@ -26,6 +27,26 @@ def gen(rng, sc, n):
         l = cc.spec_line('clone', mt2, items, rng)
         lines.append(l)
         meta[l] = (mt2, items)
+    # clone of a DECODED message: fields arrive in schema order (must clone to the same bytes) or in a shuffled order (known finding)
+    for i in range(max(12, n // 6)):
+        rr = r0 if i < 6 else rng
+        for _ in range(50):
+            mt, items = cc.gen_message(rr, sc, p_opt=0.5, with_data=False)
+            if not any(it.elems is not None for it in items):
+                break
+        else:
+            continue
+        wire, toks = cc.ref_encode(sc, mt, items)
+        toks = [(b'%d' % t, v) for t, v in toks]
+        nh = 1 + len([x for x in items if x.sec == 'h'])
+        shuffled = i % 2 == 0
+        if shuffled:
+            body = toks[nh:]
+            (r0 if i < 6 else rng).shuffle(body)
+            toks = toks[:nh] + body
+        l = 'dclone s ' + cc.hx(cc.reframe(sc, toks))
+        lines.append(l)
+        meta[l] = ('dclone', shuffled and toks[nh:] != [(b'%d' % t, v) for t, v in cc.ref_encode(sc, mt, items)[1]][nh:])
     return lines, meta
 
 
@@ -33,6 +54,12 @@ def make_oracle(sc, meta):
     def oracle(line, out):
         if line not in meta:
             return (None, None)
+        if meta[line][0] == 'dclone':
+            m = DRES.match(out)
+            if not m:
+                return (False, None)
+            ok = m.group(2) == m.group(3)
+            return (ok, None) if ok else (False, 'decoded-message-reordered' if meta[line][1] else None)
         m = RES.match(out)
         if not m:
             return (False, None)
